@@ -393,11 +393,26 @@ func (c *c06Case) Run(ctx *core.Ctx) {
 		case "attr":
 			content = `<b :title="v">{{ v }}</b>`
 		}
-		files = Files{"c.vuego": comp, "page.vuego": `<template include="c.vuego"` + incAttrs + `>` + content + `</template><i>{{ v }}</i>`}
 		var want []string
 		for i := 0; i < n; i++ {
 			want = append(want, "IV")
 		}
+		if c.Form == "scoped" || c.Form == "scopednamed" {
+			// the slot binds a prop to the component's variable of that name: the content receives the
+			// component's value through the prop, and still reads the includer's variable by its name
+			slot, tmpl := `<slot :item="v">`, `<template v-slot="sp">`
+			if c.Form == "scopednamed" {
+				slot, tmpl = `<slot name="row" :item="v">`, `<template #row="sp">`
+			}
+			comp = strings.Replace(comp, `<slot>`, slot, 1)
+			content = tmpl + `<b>{{ sp.item }}/{{ v }}</b></template>`
+			cv := map[string][]string{"prop": {"COMP"}, "boundprop": {"PV"}, "frontmatter": {"COMP"}, "loopvar": {"x0", "x1"}, "tmplvar": {"COMP"}}[c.Var]
+			want = nil
+			for _, x := range cv {
+				want = append(want, x+"/IV")
+			}
+		}
+		files = Files{"c.vuego": comp, "page.vuego": `<template include="c.vuego"` + incAttrs + `>` + content + `</template><i>{{ v }}</i>`}
 		expectText("em", want, "includer-variable-shadowed-by-component")
 		expectText("i", []string{"IV"}, "after")
 		trig = c.Var + "/" + c.Form
@@ -592,7 +607,7 @@ func init() {
 				emit(&c06Case{Part: "case", Form: f})
 			}
 			for _, v := range []string{"prop", "boundprop", "frontmatter", "loopvar", "tmplvar"} {
-				for _, f := range []string{"plain", "vslot", "attr"} {
+				for _, f := range []string{"plain", "vslot", "attr", "scoped", "scopednamed"} {
 					emit(&c06Case{Part: "shadow", Var: v, Form: f})
 				}
 			}
